@@ -352,7 +352,8 @@ def inline_call(caller, bi, callee, spread=False):
             if k == "switch":
                 tm["targets"] = [[v, tgt + off_b] for v, tgt in tm["targets"]]
                 tm["otherwise"] = tm["otherwise"] + off_b
-        nb["inl_from"] = callee["path"]
+        if "{closure#" not in (nb.get("inl_from") or ""):
+            nb["inl_from"] = callee["path"]
         caller["blocks"].append(nb)
 
 
@@ -1068,7 +1069,7 @@ class Sim:
                 # this path are distinct atoms (epoch of the receiver)
                 if args and val and val[0] == "call":
                     ep = p.env.get(("#epoch", args[0]), 0)
-                    if ep:
+                    if ep and val[1] == name:      # (a transparent call stays its argument)
                         val = ("call", name, args, ep)
                     a0 = t["args"][0]
                     if a0["k"] in ("copy", "move") and not a0["p"]["proj"] \
